@@ -72,9 +72,10 @@ Section Bins.
     | [] => Ok []
     | l => Ok (set_first_lower l bh_lo)
     end.
-  (* NS_mask = (bins_MS.lower < 1.4) & (1.4 < bins_MS.upper); c14 is the literal 1.4 *)
+  (* NS_mask = (bins_MS.lower <= 1.4) & (1.4 < bins_MS.upper); c14 is the literal 1.4
+     (left-inclusive since /repo fix 46060d4; it used to be strict on both sides) *)
   Definition carve_NS (ms : bins) (c14 : T) : bins :=
-    filter (fun p => (fst p <? c14) && (c14 <? snd p)) ms.
+    filter (fun p => (fst p <=? c14) && (c14 <? snd p)) ms.
 
   (* ---- lookup ------------------------------------------------------ *)
   (* ind = np.flatnonzero(massbins.lower <= mass)[-1] *)
